@@ -59,6 +59,8 @@ type routerSim struct {
 	projects []batchProject
 	bin      string
 	uncompilable []string
+	// compilerOutput is set when MOST projects were dropped because their generated routers do not compile
+	compilerOutput string
 }
 
 func repoRequireBlocks() string {
@@ -275,15 +277,17 @@ func (rs *routerSim) buildBatch() {
 	t0 := time.Now()
 	rs.bin = filepath.Join(rs.s.Dir, "bin", "batch")
 	out, err := run(rs.batchDir, nil, "go", "build", "-trimpath", "-o", rs.bin, "./cmd/batch")
-	if err != nil {
+	total := len(rs.projects)
+	for round := 0; err != nil; round++ {
 		// Generated code that does not compile is C09's subject, which this family does not claim. Projects
-		// whose routers do not compile are dropped (counted, printed); if that is most of the batch, or the
-		// harness itself is at fault, the check stops with exit 2 and the compiler's message.
+		// whose routers do not compile are dropped (counted, printed) and the exploration goes on with the
+		// rest: a violation found there is real. If most of the batch was dropped and NO violation is found,
+		// the check cannot say that the property held and stops with exit 2 (see cmdRouter).
 		bad := map[string]bool{}
-		for _, m := range regexp.MustCompile(`(?m)^# simbatch/(p\d+)/`).FindAllStringSubmatch(out, -1) {
+		for _, m := range regexp.MustCompile(`(?m)^# simbatch/([pk]\d+)/`).FindAllStringSubmatch(out, -1) {
 			bad[m[1]] = true
 		}
-		if len(bad) == 0 || len(bad)*2 > len(rs.projects) {
+		if len(bad) == 0 || round >= 4 {
 			harnessFail("the generated routers (or the harness) do not compile:\n%s", clip(out, 6000))
 		}
 		var keep []batchProject
@@ -298,10 +302,13 @@ func (rs *routerSim) buildBatch() {
 		}
 		rs.projects = keep
 		fmt.Printf("routersim: NOTE: the routers gleece generated for %d project(s) do not compile and are left out: %v\n%s\n", len(bad), rs.uncompilable, clip(out, 1500))
-		out, err = run(rs.batchDir, nil, "go", "build", "-trimpath", "-o", rs.bin, "./cmd/batch")
-		if err != nil {
-			harnessFail("the generated routers (or the harness) do not compile:\n%s", clip(out, 6000))
+		if len(rs.projects) == 0 {
+			harnessFail("none of the generated routers compiles:\n%s", clip(out, 6000))
 		}
+		if len(rs.uncompilable)*2 > total {
+			rs.compilerOutput = clip(out, 6000)
+		}
+		out, err = run(rs.batchDir, nil, "go", "build", "-trimpath", "-o", rs.bin, "./cmd/batch")
 	}
 	fmt.Printf("routersim: %d projects x 5 engines compiled into one batch binary in %.1fs\n", len(rs.projects), time.Since(t0).Seconds())
 }
@@ -535,6 +542,9 @@ func cmdRouter(prop string, args []string) {
 			harnessFail("non-replayable: %v did not reproduce in a fresh process", nonReplayable)
 		}
 		fmt.Fprintf(os.Stderr, "warning: %d candidate violation(s) did not reproduce in a fresh process and are NOT reported: %v\n", len(nonReplayable), nonReplayable)
+	}
+	if rs.compilerOutput != "" && rep.Count() == 0 {
+		harnessFail("the routers gleece generated for %d of the projects do not compile and no violation was found on the rest: the check cannot say that %s held.\n%s", len(rs.uncompilable), prop, rs.compilerOutput)
 	}
 	wall := time.Since(start).Seconds()
 	reqs := num(stats, "requests")
